@@ -434,6 +434,30 @@ def keywise (base : J) (ld rd : List Op) : Bool :=
 /-- the local diff and the remote entries under the other keys -/
 def keywiseUnion (ld rd : List Op) : List Op := ld ++ rd.filter (fun e => !(ld.map Op.skey).contains e.skey)
 
+/-- patch-only list diff with strictly ascending indices, all at least `lo` -/
+def ascPatchB : Nat → List Op → Bool
+  | _, [] => true
+  | lo, .patchI j _ :: rest => decide (lo ≤ j) && ascPatchB (j + 1) rest
+  | _, _ :: _ => false
+
+/-- "the two sides patch different items of one list of the root object, and nothing else": decidable hypothesis of
+    `C06_model_cells`, evaluated by the driver -/
+def cellwise (base : J) (ld rd : List Op) : Bool :=
+  match base, ld, rd with
+  | .obj kvs, [.patchK k dL], [.patchK k' dR] =>
+      k == k' && base.canonical && (match lookupKV k kvs with
+        | some (.arr _) => true
+        | _ => false) &&
+      ascPatchB 0 dL && ascPatchB 0 dR && !dL.isEmpty &&
+      dL.all (fun e0 => dR.all (fun e1 => e0.idx != e1.idx)) &&
+      !Op.pyEq (.patchK k dL) (.patchK k' dR)
+  | _, _, _ => false
+
+/-- the local diff, then the remote diff -/
+def patchBoth (base : J) (ld rd : List Op) : Except Err J := do
+  let l ← patch base ld
+  patch l rd
+
 /-- `apply_decisions(base, decide_merge_with_diff(...))` -/
 def mergeApply (E : Env) (base : J) (ld rd : List Op) : Except Err J := do
   let ds ← decideMerge E base ld rd
